@@ -8,6 +8,7 @@ CONSTANTS
   Filter = TRUE
   ValueEq = FALSE
   SoloTries = 2
+  SplitPC = FALSE
 INIT Init
 NEXT Next
 VIEW view
